@@ -559,6 +559,13 @@ type queueDelivery struct {
 }
 
 func (qd *queueDelivery) AddRcpt(ctx context.Context, rcptTo string, _ smtp.RcptOptions) error {
+	// Duplicate recipients are silently ignored (see module.Delivery.AddRcpt):
+	// they would share one tries counter and one error slot in tryDelivery.
+	for _, rcpt := range qd.meta.To {
+		if rcpt == rcptTo {
+			return nil
+		}
+	}
 	qd.meta.To = append(qd.meta.To, rcptTo)
 	return nil
 }
